@@ -568,9 +568,10 @@ def run(tier, replay=None):
         n_ex = max(3, n_cases // 5)
         lines, meta = [], []
         for i in range(n_ex):
-            ploidy = r.choice([2, 3, 4]); n_base = r.randint(1, 4)
+            ploidy = r.choice([2, 3, 4, 4, 6]); n_base = r.randint(1, 4)
             n_alleles = G.gen_n_alleles(r, n_base)
-            gi = G.gen_genotype(r, ploidy, n_alleles); gj = G.gen_genotype(r, ploidy, n_alleles)
+            # (duplicated haplotypes are frequent: same number of distinct haplotypes, different dosage partitions - 2:2 vs 3:1)
+            gi = G.gen_genotype(r, ploidy, n_alleles, dup=0.5); gj = G.gen_genotype(r, ploidy, n_alleles, dup=0.5)
             reads, counts = G.gen_reads(r, n_alleles, r.randint(1, 5), haps=gi, style="encoded")
             F = r.choice(INBREEDING)
             Ti = r.choice([1.0, 0.7, 0.4]); Tj = Ti * r.choice([0.1, 0.5, 0.9])
@@ -605,7 +606,14 @@ def run(tier, replay=None):
             # chain states must be exactly exchanged / exactly unchanged, and the returned likelihoods follow the states
             step = getattr(tempering.chain_swap_step, "py_func", tempering.chain_swap_step)
             saved_rand = np.random.rand
-            for u, expect_swap in ((0.0, acc > 0.0), (1.0 - 1e-12 if acc < 1.0 else None, False)):
+            # ... and just below / just above the acceptance probability computed from the states' own priors: the step's
+            # decision threshold IS that probability (it evaluates the two priors itself)
+            near = []
+            if 1e-6 < acc < 1.0 - 1e-6:
+                near = [(acc * (1.0 - 1e-7), True), (acc * (1.0 + 1e-7), False)]
+                chk.count("exchange-step:threshold-pinned")
+            # (an acceptance within rounding of 1 - equal unordered genotypes - is not probed from above)
+            for u, expect_swap in [(0.0, acc > 0.0), (1.0 - 1e-12 if acc < 1.0 - 1e-9 else None, False)] + near:
                 if u is None:
                     continue
                 bi, bj = ai.copy(), aj.copy()
